@@ -549,6 +549,24 @@ theorem isort_eq_nil (l : List Nat) : isort l = [] ↔ l = [] := by
   · rintro rfl; rfl
 
 
+/-! ## delimiters -/
+
+/-- the delimiters for which the integer-list theorems are stated: `delim` and `range_delim` are two
+    different characters, neither a decimal digit nor one of the blanks `str.strip()` / `int()` remove -/
+structure DelimOK (d rd : Char) : Prop where
+  ne : d ≠ rd
+  d_nd : isDigit d = false
+  r_nd : isDigit rd = false
+  d_nws : isWs d = false
+  r_nws : isWs rd = false
+
+instance (d rd : Char) : Decidable (DelimOK d rd) :=
+  if h : d ≠ rd ∧ isDigit d = false ∧ isDigit rd = false ∧ isWs d = false ∧ isWs rd = false
+  then isTrue ⟨h.1, h.2.1, h.2.2.1, h.2.2.2.1, h.2.2.2.2⟩
+  else isFalse fun ⟨a, b, c, e, f⟩ => h ⟨a, b, c, e, f⟩
+
+theorem delimOK_default : DelimOK ',' '-' := by decide
+
 /-! ## the range-collapsing loop, structurally -/
 
 abbrev RState := List (Nat × Nat) × Option (Nat × Nat)
@@ -569,17 +587,22 @@ def rFinish (st : RState) : List (Nat × Nat) :=
 /-- the maximal runs of a sorted list -/
 def runs (s : List Nat) : List (Nat × Nat) := rFinish (s.foldl rStep ([], none))
 
+/-- `n` or `lo<rd>hi` -/
+def renderRangeD (rd : Char) (r : Nat × Nat) : Str :=
+  if r.1 = r.2 then toDigits r.1 else toDigits r.1 ++ rd :: toDigits r.2
+
 /-- `n` or `lo-hi` -/
-def renderRange (r : Nat × Nat) : Str :=
-  if r.1 = r.2 then toDigits r.1 else toDigits r.1 ++ '-' :: toDigits r.2
+def renderRange (r : Nat × Nat) : Str := renderRangeD '-' r
+
+theorem renderRange_eq : renderRange = renderRangeD '-' := rfl
 
 def crOf : Option (Nat × Nat) → List Nat
   | none => []
   | some r => List.range' r.1 (r.2 + 1 - r.1)
 
 /-- the Python loop state (output, contig_range) represents the structured state -/
-def Rel (st : List Str × List Nat) (rs : RState) : Prop :=
-  st.1 = rs.1.map renderRange ∧ st.2 = crOf rs.2 ∧ ∀ r, rs.2 = some r → r.1 ≤ r.2
+def Rel (rd : Char) (st : List Str × List Nat) (rs : RState) : Prop :=
+  st.1 = rs.1.map (renderRangeD rd) ∧ st.2 = crOf rs.2 ∧ ∀ r, rs.2 = some r → r.1 ≤ r.2
 
 theorem foldl_min_le (a : Nat) (l : List Nat) (h : ∀ y ∈ l, a ≤ y) : l.foldl min a = a := by
   induction l with
@@ -633,8 +656,8 @@ theorem range'_ext (lo m : Nat) :
   rw [h, List.range'_concat]
   simp; omega
 
-theorem fmtStep_rel (st : List Str × List Nat) (rs : RState) (x : Nat) (h : Rel st rs) :
-    Rel (fmtStep st x) (rStep rs x) := by
+theorem fmtStep_rel (rd : Char) (st : List Str × List Nat) (rs : RState) (x : Nat) (h : Rel rd st rs) :
+    Rel rd (fmtStep rd st x) (rStep rs x) := by
   obtain ⟨out, cr⟩ := st
   obtain ⟨cl, cur⟩ := rs
   obtain ⟨h1, h2, h3⟩ := h
@@ -654,7 +677,7 @@ theorem fmtStep_rel (st : List Str × List Nat) (rs : RState) (x : Nat) (h : Rel
         have : lo + 1 + 1 - lo = 2 := by omega
         simp [crOf, this, List.range'_succ]
       · split
-        · refine ⟨?_, ?_, ?_⟩ <;> simp [crOf, renderRange]
+        · refine ⟨?_, ?_, ?_⟩ <;> simp [crOf, renderRangeD]
         · exact ⟨rfl, hcr.symm, by simp⟩
     · obtain ⟨m, rfl⟩ : ∃ m, hi = lo + m + 1 := ⟨hi - lo - 1, by omega⟩
       have hlast : (lo :: (lo + 1) :: List.range' (lo + 2) m).getLastD 0 = lo + m + 1 := by
@@ -665,7 +688,7 @@ theorem fmtStep_rel (st : List Str × List Nat) (rs : RState) (x : Nat) (h : Rel
       · subst_vars; exact ⟨rfl, range'_ext lo m, by simp; omega⟩
       · split
         · refine ⟨?_, by simp [crOf], by simp⟩
-          simp only [List.map_append, List.map_cons, List.map_nil, renderRange, fmtRange]
+          simp only [List.map_append, List.map_cons, List.map_nil, renderRangeD, fmtRange]
           rw [range'_two, lmin_range', lmax_range']
           have h1 : ¬ (lo = lo + m + 1) := by omega
           have h2 : lo + (m + 1) = lo + m + 1 := by omega
@@ -673,14 +696,14 @@ theorem fmtStep_rel (st : List Str × List Nat) (rs : RState) (x : Nat) (h : Rel
         · exact ⟨rfl, (crOf_two lo m).symm, h3⟩
 
 
-theorem foldl_rel (s : List Nat) (st : List Str × List Nat) (rs : RState) (h : Rel st rs) :
-    Rel (s.foldl fmtStep st) (s.foldl rStep rs) := by
+theorem foldl_rel (rd : Char) (s : List Nat) (st : List Str × List Nat) (rs : RState) (h : Rel rd st rs) :
+    Rel rd (s.foldl (fmtStep rd) st) (s.foldl rStep rs) := by
   induction s generalizing st rs with
   | nil => exact h
-  | cons x xs ih => exact ih _ _ (fmtStep_rel st rs x h)
+  | cons x xs ih => exact ih _ _ (fmtStep_rel rd st rs x h)
 
-theorem fmtFinish_rel (st : List Str × List Nat) (rs : RState) (h : Rel st rs) :
-    fmtFinish st = (rFinish rs).map renderRange := by
+theorem fmtFinish_rel (rd : Char) (st : List Str × List Nat) (rs : RState) (h : Rel rd st rs) :
+    fmtFinish rd st = (rFinish rs).map (renderRangeD rd) := by
   obtain ⟨out, cr⟩ := st
   obtain ⟨cl, cur⟩ := rs
   obtain ⟨h1, h2, h3⟩ := h
@@ -693,17 +716,17 @@ theorem fmtFinish_rel (st : List Str × List Nat) (rs : RState) (h : Rel st rs) 
     have hle : lo ≤ hi := h3 _ rfl
     by_cases heq : lo = hi
     · subst heq
-      simp [fmtFinish, rFinish, crOf, renderRange]
+      simp [fmtFinish, rFinish, crOf, renderRangeD]
     · obtain ⟨m, rfl⟩ : ∃ m, hi = lo + m + 1 := ⟨hi - lo - 1, by omega⟩
-      simp only [fmtFinish, rFinish, crOf_two, List.map_append, List.map_cons, List.map_nil, renderRange, fmtRange]
+      simp only [fmtFinish, rFinish, crOf_two, List.map_append, List.map_cons, List.map_nil, renderRangeD, fmtRange]
       rw [range'_two, lmin_range', lmax_range']
       have h1 : ¬ (lo = lo + m + 1) := by omega
       have h2 : lo + (m + 1) = lo + m + 1 := by omega
       simp [h1, h2]
 
-theorem fmtTokens_eq (l : List Nat) : fmtTokens l = (runs (isort l)).map renderRange := by
+theorem fmtTokens_eq (rd : Char) (l : List Nat) : fmtTokens rd l = (runs (isort l)).map (renderRangeD rd) := by
   unfold fmtTokens runs
-  exact fmtFinish_rel _ _ (foldl_rel _ _ _ ⟨rfl, rfl, by simp⟩)
+  exact fmtFinish_rel rd _ _ (foldl_rel rd _ _ _ ⟨rfl, rfl, by simp⟩)
 
 end C14
 
@@ -810,20 +833,26 @@ theorem runs_spec (s : List Nat) (hs : s.Pairwise (· ≤ ·)) :
 theorem toDigits_no (n : Nat) (d : Char) (hd : isDigit d = false) : d ∉ toDigits n := by
   intro h; have := toDigits_digits n d h; simp [hd] at this
 
-theorem renderRange_no_comma (r : Nat × Nat) : ',' ∉ renderRange r := by
-  have h := fun n => toDigits_no n ',' (by decide)
-  unfold renderRange; split <;> simp [h]
+/-- a non-digit character other than the range delimiter does not occur in a rendered range -/
+theorem renderRangeD_no (rd d : Char) (hd : isDigit d = false) (hne : d ≠ rd) (r : Nat × Nat) :
+    d ∉ renderRangeD rd r := by
+  have h := fun n => toDigits_no n d hd
+  unfold renderRangeD; split <;> simp [h, hne]
 
-theorem renderRange_chars (r : Nat × Nat) : ∀ c ∈ renderRange r, isWs c = false := by
+theorem renderRange_no_comma (r : Nat × Nat) : ',' ∉ renderRange r :=
+  renderRangeD_no '-' ',' (by decide) (by decide) r
+
+theorem renderRangeD_chars (rd : Char) (hr : isWs rd = false) (r : Nat × Nat) :
+    ∀ c ∈ renderRangeD rd r, isWs c = false := by
   intro c hc
   have hd := fun n c (h : c ∈ toDigits n) => digit_not_ws (toDigits_digits n c h)
-  unfold renderRange at hc
+  unfold renderRangeD at hc
   split at hc
   · exact hd _ c hc
   · simp only [List.mem_append, List.mem_cons] at hc
     rcases hc with hc | rfl | hc
     · exact hd _ c hc
-    · decide
+    · exact hr
     · exact hd _ c hc
 
 theorem mapM?_map {α β γ : Type} (f : β → Option γ) (g : α → β) (h : α → γ) (l : List α)
@@ -833,16 +862,16 @@ theorem mapM?_map {α β γ : Type} (f : β → Option γ) (g : α → β) (h : 
   | cons a as ih =>
     simp [mapM?, hf a (by simp), ih (fun x hx => hf x (by simp [hx]))]
 
-theorem parseTok_render (r : Nat × Nat) (h : r.1 ≤ r.2) :
-    parseTok (renderRange r) = some (rangeIncl r.1 r.2) := by
+theorem parseTok_render (rd : Char) (hrd : isDigit rd = false) (r : Nat × Nat) (h : r.1 ≤ r.2) :
+    parseTok rd (renderRangeD rd r) = some (rangeIncl r.1 r.2) := by
   obtain ⟨lo, hi⟩ := r
   simp only at h
-  have hno := fun n => toDigits_no n '-' (by decide)
-  unfold renderRange
+  have hno := fun n => toDigits_no n rd hrd
+  unfold renderRangeD
   split
   · rename_i he
     simp only at he; subst he
-    have h1 : (toDigits lo).contains '-' = false := by
+    have h1 : (toDigits lo).contains rd = false := by
       simpa using hno lo
     have h2 : (toDigits lo).isEmpty = false := by
       cases h : toDigits lo with
@@ -851,16 +880,16 @@ theorem parseTok_render (r : Nat × Nat) (h : r.1 ≤ r.2) :
     simp [parseTok, hno lo, h2, pyInt_toDigits, rangeIncl]
   · rename_i hne
     simp only at hne
-    have h1 : (toDigits lo ++ '-' :: toDigits hi).contains '-' = true := by simp
+    have h1 : (toDigits lo ++ rd :: toDigits hi).contains rd = true := by simp
     simp only [parseTok, h1, if_true]
-    rw [splitOn_append '-' _ _ (hno lo), splitOn_none '-' _ (hno hi)]
+    rw [splitOn_append rd _ _ (hno lo), splitOn_none rd _ (hno hi)]
     simp only [mapM?, pyInt_toDigits, lmin, lmax, List.foldl_cons, List.foldl_nil]
     rw [Nat.min_eq_left h, Nat.max_eq_right h]
 
 theorem boundsTok_render (r : Nat × Nat) : boundsTok (renderRange r) = some r := by
   obtain ⟨lo, hi⟩ := r
   have hno := fun n => toDigits_no n '-' (by decide)
-  unfold renderRange
+  unfold renderRange renderRangeD
   split
   · rename_i he
     simp only at he; subst he
@@ -917,21 +946,27 @@ theorem lt_imp_le_pairwise {l : List Nat} (h : l.Pairwise (· < ·)) : l.Pairwis
   h.imp (fun h => Nat.le_of_lt h)
 
 /-- parsing the rendering of any list of non-empty runs gives the sorted expansion -/
-theorem parse_render (rs : List (Nat × Nat)) (h : ∀ r ∈ rs, r.1 ≤ r.2) :
-    parseIntList (join [','] (rs.map renderRange)) = some (isort (expand rs)) := by
+theorem parse_renderD (d rd : Char) (ok : DelimOK d rd) (rs : List (Nat × Nat)) (h : ∀ r ∈ rs, r.1 ≤ r.2) :
+    parseIntList (join [d] (rs.map (renderRangeD rd))) d rd = some (isort (expand rs)) := by
   unfold parseIntList
-  have hws : ∀ c ∈ join [','] (rs.map renderRange), isWs c = false := by
+  have hws : ∀ c ∈ join [d] (rs.map (renderRangeD rd)), isWs c = false := by
     apply join_chars
-    · intro c hc; simp at hc; subst hc; decide
-    · intro t ht; simp only [List.mem_map] at ht; obtain ⟨r, -, rfl⟩ := ht; exact renderRange_chars r
+    · intro c hc; simp at hc; subst hc; exact ok.d_nws
+    · intro t ht; simp only [List.mem_map] at ht; obtain ⟨r, -, rfl⟩ := ht; exact renderRangeD_chars rd ok.r_nws r
   rw [strip_id _ hws]
   cases rs with
   | nil => simp [join, splitOn, mapM?, parseTok, expand, isort]
   | cons r rs' =>
-    rw [splitOn_join ',' _ (by simp) (by
-      intro t ht; simp only [List.mem_map] at ht; obtain ⟨r, -, rfl⟩ := ht; exact renderRange_no_comma r)]
-    rw [mapM?_map parseTok renderRange (fun r => rangeIncl r.1 r.2) _ (fun x hx => parseTok_render x (h x hx))]
+    rw [splitOn_join d _ (by simp) (by
+      intro t ht; simp only [List.mem_map] at ht; obtain ⟨r, -, rfl⟩ := ht
+      exact renderRangeD_no rd d ok.d_nd ok.ne r)]
+    rw [mapM?_map (parseTok rd) (renderRangeD rd) (fun r => rangeIncl r.1 r.2) _
+      (fun x hx => parseTok_render rd ok.r_nd x (h x hx))]
     rfl
+
+theorem parse_render (rs : List (Nat × Nat)) (h : ∀ r ∈ rs, r.1 ≤ r.2) :
+    parseIntList (join [','] (rs.map renderRange)) = some (isort (expand rs)) :=
+  parse_renderD ',' '-' delimOK_default rs h
 
 end C14
 
@@ -939,19 +974,25 @@ namespace C14
 
 /-! ## assembling: format / parse / complement / ranges -/
 
-theorem format_eq (l : List Nat) :
-    formatIntList l = join [','] ((runs (isort l)).map renderRange) := by
+theorem format_eqD (d rd : Char) (l : List Nat) :
+    formatIntList l false d rd = join [d] ((runs (isort l)).map (renderRangeD rd)) := by
   simp [formatIntList, fmtTokens_eq]
+
+theorem format_eq (l : List Nat) :
+    formatIntList l = join [','] ((runs (isort l)).map renderRange) := format_eqD ',' '-' l
 
 theorem runs_isort_spec (l : List Nat) :
     Canon (runs (isort l)) ∧ ∀ y, Covers (runs (isort l)) y ↔ y ∈ l := by
   have := runs_spec (isort l) (isort_sorted l)
   exact ⟨this.1, fun y => by rw [this.2 y, mem_isort]⟩
 
-theorem parse_format (l : List Nat) :
-    parseIntList (formatIntList l) = some (expand (runs (isort l))) := by
+theorem parse_formatD (d rd : Char) (ok : DelimOK d rd) (l : List Nat) :
+    parseIntList (formatIntList l false d rd) d rd = some (expand (runs (isort l))) := by
   have hc := (runs_isort_spec l).1
-  rw [format_eq, parse_render _ hc.1, isort_id _ (lt_imp_le_pairwise (expand_sorted _ hc))]
+  rw [format_eqD, parse_renderD d rd ok _ hc.1, isort_id _ (lt_imp_le_pairwise (expand_sorted _ hc))]
+
+theorem parse_format (l : List Nat) :
+    parseIntList (formatIntList l) = some (expand (runs (isort l))) := parse_formatD ',' '-' delimOK_default l
 
 theorem formatIntList_eq_nil (l : List Nat) (h : formatIntList l = []) : runs (isort l) = [] := by
   rw [format_eq] at h
@@ -961,15 +1002,16 @@ theorem formatIntList_eq_nil (l : List Nat) (h : formatIntList l = []) : runs (i
     rw [hr] at h
     exfalso
     have hne : renderRange r ≠ [] := by
-      unfold renderRange; split
+      unfold renderRange renderRangeD; split
       · exact toDigits_ne_nil _
       · simp
     cases rs with
     | nil => simp [join] at h; exact hne h
     | cons b r' => simp [join] at h
 
-theorem intRanges_of_parse (s : Str) (l : List Nat) (h : parseIntList s = some l) :
-    intRanges s = some (runs (isort l)) := by
+/-- whatever delimiters the text is read with, the ranges are the maximal runs of what was read -/
+theorem intRanges_of_parseD (d rd : Char) (s : Str) (l : List Nat) (h : parseIntList s d rd = some l) :
+    intRanges s d rd = some (runs (isort l)) := by
   unfold intRanges
   rw [h]
   simp only
@@ -984,6 +1026,9 @@ theorem intRanges_of_parse (s : Str) (l : List Nat) (h : parseIntList s = some l
       intro t ht; simp only [List.mem_map] at ht; obtain ⟨r, -, rfl⟩ := ht; exact renderRange_no_comma r)]
     rw [mapM?_map boundsTok renderRange id _ (fun x _ => boundsTok_render x)]
     simp
+
+theorem intRanges_of_parse (s : Str) (l : List Nat) (h : parseIntList s = some l) :
+    intRanges s = some (runs (isort l)) := intRanges_of_parseD ',' '-' s l h
 
 end C14
 
@@ -1065,6 +1110,12 @@ theorem sorted_ext (A B : List Nat) (hA : A.Pairwise (· < ·)) (hB : B.Pairwise
         rcases hx.mpr (Or.inr hxb) with rfl | h'
         · omega
         · exact h'
+
+/-- the expansion of the maximal runs of `sorted(L)` IS the sorted list of the distinct members of `L` -/
+theorem expand_runs_eq (L : List Nat) : expand (runs (isort L)) = sortDedup L := by
+  have hs := runs_isort_spec L
+  exact sorted_ext _ _ (expand_sorted _ hs.1) (sortDedup_sorted L)
+    (fun x => by rw [mem_expand, hs.2, mem_sortDedup])
 
 /-! ## canonical run lists are unique -/
 
@@ -1160,12 +1211,12 @@ namespace C14
 
 /-! ## delim_space=True -/
 
-/-- the pieces `s.split(',')` sees when the separator was `", "` -/
+/-- the pieces `s.split(delim)` sees when the separator was `delim + " "` -/
 def spaceTail : List Str → List Str
   | [] => []
   | t :: ts => t :: ts.map (' ' :: ·)
 
-theorem join_space (toks : List Str) : join [',', ' '] toks = join [','] (spaceTail toks) := by
+theorem join_space (d : Char) (toks : List Str) : join [d, ' '] toks = join [d] (spaceTail toks) := by
   induction toks with
   | nil => rfl
   | cons a r ih =>
@@ -1194,43 +1245,40 @@ theorem pyInt_space_toDigits (n : Nat) : pyInt? (' ' :: toDigits n) = some n := 
   rw [strip_id _ (fun c hc => digit_not_ws (toDigits_digits n c hc))] at h
   exact h
 
-theorem parseTok_space_render (r : Nat × Nat) (h : r.1 ≤ r.2) :
-    parseTok (' ' :: renderRange r) = some (rangeIncl r.1 r.2) := by
+theorem parseTok_space_render (rd : Char) (hrd : isDigit rd = false) (hsp : rd ≠ ' ') (r : Nat × Nat) (h : r.1 ≤ r.2) :
+    parseTok rd (' ' :: renderRangeD rd r) = some (rangeIncl r.1 r.2) := by
   obtain ⟨lo, hi⟩ := r
   simp only at h
-  have hno := fun n => toDigits_no n '-' (by decide)
-  unfold renderRange
+  have hno := fun n => toDigits_no n rd hrd
+  have hsp' : ¬ (' ' = rd) := fun e => hsp e.symm
+  unfold renderRangeD
   split
   · rename_i he
     simp only at he; subst he
-    simp [parseTok, hno lo, pyInt_space_toDigits, rangeIncl]
-  · have h1 : (' ' :: (toDigits lo ++ '-' :: toDigits hi)).contains '-' = true := by simp
+    have h1 : (' ' :: toDigits lo).contains rd = false := by
+      simp [hno lo, hsp]
+    simp only [parseTok, h1]
+    simp [pyInt_space_toDigits, rangeIncl]
+  · have h1 : (' ' :: (toDigits lo ++ rd :: toDigits hi)).contains rd = true := by simp
     simp only [parseTok, h1, if_true]
-    have : ' ' :: (toDigits lo ++ '-' :: toDigits hi) = (' ' :: toDigits lo) ++ '-' :: toDigits hi := by simp
-    rw [this, splitOn_append '-' _ _ (by simp [hno lo]), splitOn_none '-' _ (hno hi)]
+    have : ' ' :: (toDigits lo ++ rd :: toDigits hi) = (' ' :: toDigits lo) ++ rd :: toDigits hi := by simp
+    rw [this, splitOn_append rd _ _ (by simp [hno lo, hsp]), splitOn_none rd _ (hno hi)]
     simp only [mapM?, pyInt_toDigits, pyInt_space_toDigits, lmin, lmax, List.foldl_cons, List.foldl_nil]
     rw [Nat.min_eq_left h, Nat.max_eq_right h]
 
-theorem mapM?_spaceTail (rs : List (Nat × Nat)) (h : ∀ r ∈ rs, r.1 ≤ r.2) :
-    mapM? parseTok (spaceTail (rs.map renderRange)) = some (rs.map fun r => rangeIncl r.1 r.2) := by
+theorem ws_space : isWs ' ' = true := by decide
+
+theorem mapM?_spaceTail (rd : Char) (hrd : isDigit rd = false) (hsp : rd ≠ ' ')
+    (rs : List (Nat × Nat)) (h : ∀ r ∈ rs, r.1 ≤ r.2) :
+    mapM? (parseTok rd) (spaceTail (rs.map (renderRangeD rd))) = some (rs.map fun r => rangeIncl r.1 r.2) := by
   cases rs with
   | nil => rfl
   | cons r rs' =>
-    simp only [List.map_cons, spaceTail, mapM?, parseTok_render r (h r (by simp))]
+    simp only [List.map_cons, spaceTail, mapM?, parseTok_render rd hrd r (h r (by simp))]
     rw [List.map_map]
-    have := mapM?_map parseTok ((' ' :: ·) ∘ renderRange) (fun r => rangeIncl r.1 r.2) rs'
-      (fun x hx => parseTok_space_render x (h x (by simp [hx])))
+    have := mapM?_map (parseTok rd) ((' ' :: ·) ∘ renderRangeD rd) (fun r => rangeIncl r.1 r.2) rs'
+      (fun x hx => parseTok_space_render rd hrd hsp x (h x (by simp [hx])))
     rw [this]
-
-theorem head_not_ws_strip (s : Str) (c d : Char) (m : Str) (hs : s = c :: m ++ [d])
-    (hc : isWs c = false) (hd : isWs d = false) : strip s = s := by
-  subst hs
-  unfold strip
-  have h1 : (c :: m ++ [d]).dropWhile isWs = c :: m ++ [d] := by simp [List.dropWhile, hc]
-  rw [h1]
-  have h2 : (c :: m ++ [d]).reverse = d :: (c :: m).reverse := by simp
-  rw [h2]
-  simp [List.dropWhile, hd]
 
 /-- first and last character exist and are not blanks -/
 def GoodEnds (s : Str) : Prop :=
@@ -1287,40 +1335,52 @@ theorem goodEnds_join (sep : Str) (toks : List Str) (hne : toks ≠ []) (h : ∀
       simp only [join]
       exact goodEnds_append _ _ _ (h a (by simp)) (ih (by simp) (fun t ht => h t (by simp [ht])))
 
-theorem goodEnds_render (r : Nat × Nat) : GoodEnds (renderRange r) := by
+theorem goodEnds_render (rd : Char) (hr : isWs rd = false) (r : Nat × Nat) : GoodEnds (renderRangeD rd r) := by
   apply goodEnds_of_all
-  · unfold renderRange; split
+  · unfold renderRangeD; split
     · exact toDigits_ne_nil _
     · simp
-  · exact renderRange_chars r
+  · exact renderRangeD_chars rd hr r
 
-theorem spaceTail_no_comma (rs : List (Nat × Nat)) : ∀ t ∈ spaceTail (rs.map renderRange), ',' ∉ t := by
+theorem spaceTail_no_delim (d rd : Char) (ok : DelimOK d rd) (rs : List (Nat × Nat)) :
+    ∀ t ∈ spaceTail (rs.map (renderRangeD rd)), d ∉ t := by
+  have hds : d ≠ ' ' := by
+    intro e; have := ok.d_nws; rw [e] at this; exact absurd this (by decide)
   intro t ht
   cases rs with
   | nil => simp [spaceTail] at ht
   | cons r rs' =>
     simp only [List.map_cons, spaceTail, List.mem_cons, List.mem_map] at ht
     rcases ht with rfl | ⟨t', ⟨r', -, rfl⟩, rfl⟩
-    · exact renderRange_no_comma r
-    · have := renderRange_no_comma r'
-      simp [this]
+    · exact renderRangeD_no rd d ok.d_nd ok.ne r
+    · have := renderRangeD_no rd d ok.d_nd ok.ne r'
+      simp [this, hds]
 
-theorem parse_render_space (rs : List (Nat × Nat)) (h : ∀ r ∈ rs, r.1 ≤ r.2) :
-    parseIntList (join [',', ' '] (rs.map renderRange)) = some (isort (expand rs)) := by
+theorem parse_render_spaceD (d rd : Char) (ok : DelimOK d rd) (rs : List (Nat × Nat)) (h : ∀ r ∈ rs, r.1 ≤ r.2) :
+    parseIntList (join [d, ' '] (rs.map (renderRangeD rd))) d rd = some (isort (expand rs)) := by
+  have hrs : rd ≠ ' ' := by
+    intro e; have := ok.r_nws; rw [e] at this; exact absurd this (by decide)
   unfold parseIntList
   cases rs with
   | nil => simp [join, strip, splitOn, mapM?, parseTok, expand, isort]
   | cons r rs' =>
     rw [strip_goodEnds _ (goodEnds_join _ _ (by simp) (by
-      intro t ht; simp only [List.mem_map] at ht; obtain ⟨r, -, rfl⟩ := ht; exact goodEnds_render r))]
-    rw [join_space, splitOn_join ',' _ (by simp [spaceTail]) (spaceTail_no_comma _), mapM?_spaceTail _ h]
+      intro t ht; simp only [List.mem_map] at ht; obtain ⟨r, -, rfl⟩ := ht; exact goodEnds_render rd ok.r_nws r))]
+    rw [join_space, splitOn_join d _ (by simp [spaceTail]) (spaceTail_no_delim d rd ok _),
+      mapM?_spaceTail rd ok.r_nd hrs _ h]
     rfl
 
-theorem parse_format_space (l : List Nat) :
-    parseIntList (formatIntList l true) = some (expand (runs (isort l))) := by
+theorem format_eq_spaceD (d rd : Char) (l : List Nat) :
+    formatIntList l true d rd = join [d, ' '] ((runs (isort l)).map (renderRangeD rd)) := by
+  simp [formatIntList, fmtTokens_eq]
+
+theorem parse_format_spaceD (d rd : Char) (ok : DelimOK d rd) (l : List Nat) :
+    parseIntList (formatIntList l true d rd) d rd = some (expand (runs (isort l))) := by
   have hc := (runs_isort_spec l).1
-  have : formatIntList l true = join [',', ' '] ((runs (isort l)).map renderRange) := by
-    simp [formatIntList, fmtTokens_eq]
-  rw [this, parse_render_space _ hc.1, isort_id _ (lt_imp_le_pairwise (expand_sorted _ hc))]
+  rw [format_eq_spaceD, parse_render_spaceD d rd ok _ hc.1, isort_id _ (lt_imp_le_pairwise (expand_sorted _ hc))]
+
+theorem parse_format_space (l : List Nat) :
+    parseIntList (formatIntList l true) = some (expand (runs (isort l))) :=
+  parse_format_spaceD ',' '-' delimOK_default l
 
 end C14
